@@ -16,12 +16,13 @@ InstructionNameExtractor = Callable[[str], str]
 class _ErrMsgSourceConstructor:
     def __init__(self, before_parse: ParseSource):
         self._first_line = before_parse.current_line
+        self._remaining_of_first_line__before = before_parse.remaining_part_of_current_line
         self._remaining__before = before_parse.remaining_source
 
     def ending_at(self, after_parse: ParseSource) -> LineSequence:
         num_chars = len(self._remaining__before) - len(after_parse.remaining_source)
 
-        if num_chars < len(self._first_line.text):
+        if num_chars < len(self._remaining_of_first_line__before):
             return line_sequence_from_line(self._first_line)
 
         source__consumed = self._remaining__before[:num_chars].rstrip()
